@@ -2640,7 +2640,22 @@ class HasTraits(CHasTraits, metaclass=MetaHasTraits):
                     handler_type=lnw.type,
                 ).listener
                 lnw.listener = listener
-                listener.register(self)
+                try:
+                    listener.register(self)
+                except BaseException:
+                    # Hooking up the listeners reads the intermediate traits
+                    # and so may run user code (default methods, property
+                    # getters) that raises: leave nothing attached.
+                    try:
+                        listener.unregister(self)
+                    except Exception:
+                        pass
+                    lnw.dispose()
+                    if len(listeners) == 0:
+                        del dict[name]
+                        if len(dict) == 0:
+                            del self.__dict__[TraitsListener]
+                    raise
                 listeners.append(lnw)
 
     # A synonym for 'on_trait_change'
